@@ -44,7 +44,8 @@ RULE = ('one case = backend (dict / directory / zip / caching wrapper) x failure
         'change), `share` + `dag` (a sub-template referenced from several parents at different depths in both orders; '
         'all DAGs over 2..4 named objects, sampled in the quick tier), `cache` (caching wrapper around directory and '
         'archive, observed through the wrapper object as well), `registry` (the PulseStorage is the default registry: '
-        'constructing the object stores it); '
+        'constructing the object stores it), `nest` (what the repaired encoder rejects: the stored object inside its own '
+        'replacement at depth 1..3, a second object under an identifier of the same transaction); '
         'random templates on pre-populated storages.  Non-trivial = at least two crash positions or a pre-write '
         'failure; distinct = distinct canonical JSON of the case.')
 TRUSTED = [
@@ -703,6 +704,65 @@ def caching_cases(tier):
     return out
 
 
+def nest_cases(backends, tier):
+    """what the round-4 repair rejects, deterministically: (R2) the STORED object of the identifier that is overwritten
+    inside its own replacement at depth 1 / 2 / 3, alone or next to new sub-templates, wrapped or not, cache intact or
+    dropped; (R1) a second object with an identifier the same transaction already uses - the root's (new) identifier
+    below the root, one new identifier at two depths in both orders.  All must be rejected before anything is
+    written; the failed operation is repeated / followed by an acceptable one"""
+    out = []
+    j = 0
+    for depth in (1, 2, 3):
+        for extra in (False, True):
+            for cleared in (False, True):
+                for b in (backends if tier == 'thorough' else [backends[j % len(backends)]]):
+                    s = Scn(b)
+                    l1 = s.obj(1)
+                    old = s.obj(0, [l1, s.obj(2, shape=1)], wrap=[False, True])
+                    s.history.append({'op': 'store', 't': old})
+                    s.history.append({'op': 'store', 't': s.obj(3, [old])})
+                    if cleared:
+                        s.history.append({'op': 'clear'})
+                    inner = old
+                    for d in range(depth - 1):
+                        inner = s.obj(5 + d, [inner] + ([s.obj(20 + d)] if extra else []),
+                                      wrap=[j % 2 == 1] + ([False] if extra else []))
+                    kids = ([s.obj(9)] if extra else []) + [inner]
+                    root = s.obj(0, kids, [False] * (len(kids) - 1) + [j % 3 == 1])
+                    c = s.case({'op': 'overwrite', 't': root},
+                               'nest stored-root depth%d%s%s' % (depth, ' extra' if extra else '', ' cleared' if cleared else ''))
+                    if j % 2 == 0:
+                        c['post'] = dict(c['final'])
+                    else:       # an acceptable overwrite of the same identifier afterwards
+                        c['post'] = {'op': 'overwrite', 't': s.obj(0, [s.obj(30)])}
+                    c['fixed_post'] = True
+                    out.append(c)
+                j += 1
+    for variant in range(6):
+        for b in (backends if tier == 'thorough' else [backends[variant % len(backends)]]):
+            s = Scn(b)
+            s.history.append({'op': 'store', 't': s.obj(0, [s.obj(1)])})
+            if variant == 0:      # the root's new identifier once more, two levels down
+                root = s.obj(4, [s.obj(5, [s.obj(4)], wrap=[True])])
+            elif variant == 1:    # ... as a direct child, after a new leaf
+                root = s.obj(4, [s.obj(5), s.obj(4, [s.obj(6)])])
+            elif variant == 2:    # one new identifier at depth 1, then at depth 2
+                root = s.obj(4, [s.obj(5), s.obj(6, [s.obj(5, [s.obj(7)])])])
+            elif variant == 3:    # ... at depth 2, then at depth 1
+                root = s.obj(4, [s.obj(6, [s.obj(5, [s.obj(7)])]), s.obj(5)])
+            elif variant == 4:    # an overwrite of a stored root with its identifier on a NEW object below
+                root = s.obj(0, [s.obj(5, [s.obj(0, [s.obj(6)])])])
+            else:                 # two different objects, the same (new) identifier, EQUAL content (same document)
+                a, b2 = s.obj(5), s.obj(5)
+                s.objs[str(b2)]['payload'] = s.objs[str(a)]['payload']
+                root = s.obj(4, [a, b2], wrap=[False, True])
+            c = s.case({'op': 'overwrite' if variant == 4 else 'store', 't': root}, 'nest second-object %d' % variant)
+            c['post'] = {'op': 'store', 't': s.obj(40, [s.obj(41)])}
+            c['fixed_post'] = True
+            out.append(c)
+    return out
+
+
 def registry_cases(backends):
     """the PulseStorage is the default pulse registry: a named object is stored by CONSTRUCTING it (new and cached
     children, a used identifier, an un-serializable child, the identity check loading from the backend while the
@@ -898,6 +958,7 @@ def _gen_cases(rng, tier, ctx):
     cases.extend(dag_enum_cases(backends, rng, tier))
     cases.extend(caching_cases(tier))
     cases.extend(registry_cases(backends + ['cfs']))
+    cases.extend(nest_cases(backends, tier))
     # random templates on random storages
     for _ in range({'quick': 150, 'thorough': 2500}[tier]):
         cases.append(rand_case(rng, rng.choice(backends)))
@@ -958,7 +1019,7 @@ def histogram_keys(case, obs):
     else:
         keys.append('obs:crash')
     if case['note'].split()[0] in ('enum', 'order', 'hist', 'ow', 'lowlevel', 'same', 'load', 'open', 'names', 'share',
-                                   'dag', 'cache', 'registry'):
+                                   'dag', 'cache', 'registry', 'nest'):
         keys.append('stream:' + case['note'].split()[0])
     elif case['note'].startswith('corpus'):
         keys.append('stream:corpus')
